@@ -121,7 +121,7 @@ pub fn differential(ctx: &Ctx, rep: &mut Report) {
     // fingerprint-colliding pairs (see collide.rs): two different inputs of one length that agree
     // in a cheap fingerprint, hashed A, B, A on one thread
     let ncand = ctx.sz(1_200_000, 6_000_000);
-    let fams: Vec<(usize, bool)> = vec![(8, true), (42, true), (42, false), (200, true)];
+    let fams: Vec<(usize, bool)> = vec![(8, true), (42, true), (42, false), (200, true), (96, false)];
     let r = par_for(fams.len(), ncpu(), |fi, rep| {
         let (len, counter_last) = fams[fi];
         let mut rng = rng_for(ctx.seed, &format!("c14-collide-{}", fi));
@@ -130,7 +130,12 @@ pub fn differential(ctx: &Ctx, rep: &mut Report) {
             .map(|_| {
                 let ctr: [u8; 8] = rng.gen();
                 let mut v = Vec::with_capacity(len);
-                if counter_last {
+                if len == 96 {
+                    // the varying bytes in the MIDDLE: all candidates share head and tail
+                    v.extend_from_slice(&fixed[..48]);
+                    v.extend_from_slice(&ctr);
+                    v.extend_from_slice(&fixed[48..]);
+                } else if counter_last {
                     v.extend_from_slice(&fixed);
                     v.extend_from_slice(&ctr);
                 } else {
